@@ -162,6 +162,12 @@ def render(spec: dict, i: int) -> tuple[str, 'layout.Request']:
             del row[req.get('drop', 'x')]
         rows.append(row)
     names = list(rows[0])
+    if req.get('order'):  # the client's own feature order
+        import itertools  # pylint: disable=import-outside-toplevel
+
+        perms = list(itertools.permutations(names))
+        names = list(perms[req['order'] % len(perms)])
+        rows = [{n: r[n] for n in names} for r in rows]
     ctype = req['ctype']
     if ctype == 'csv':
         body = ','.join(names) + '\n' + ''.join(','.join(str(r[n]) for n in names) + '\n' for r in rows)
